@@ -98,6 +98,162 @@ def well_formed(site, cls, n):
     return True
 
 
+class Rec:
+    """a real socket whose failing calls are recorded (the exception the kernel really produced)"""
+
+    def __init__(self, real):
+        self._real, self.exc, self.codes = real, None, []
+
+    def __getattr__(self, name):
+        return getattr(self._real, name)
+
+    def _call(self, name, *a):
+        try:
+            return getattr(self._real, name)(*a)
+        except Exception as ex:
+            self.exc = ex
+            raise
+
+    def recv(self, *a):
+        return self._call("recv", *a)
+
+    def send(self, *a):
+        return self._call("send", *a)
+
+    def recvfrom(self, *a):
+        return self._call("recvfrom", *a)
+
+    def sendto(self, *a):
+        return self._call("sendto", *a)
+
+    def connect_ex(self, *a):
+        code = self._real.connect_ex(*a)
+        self.codes.append(code)
+        return code
+
+
+REAL_SCENARIOS = ["client-reset-recv", "client-reset-send", "client-epipe-send", "incomer-reset-recv",
+                  "incomer-reset-send", "gram-refused-recv", "gram-refused-send", "connect-refused"]
+
+
+def real_scenario(name):
+    """Provoke a real error on loopback and push it through the real method.
+    Returns (equivalent scripted case or None, observation line)."""
+    import socket, struct, time, types
+    from ioflo.aio.tcp import clienting, serving
+    from ioflo.aio.udp import udping
+    from ioflo.aio.proto import stacking
+    from ioflo.base import storing
+    store = storing.Store(stamp=0.0)
+
+    def rst(sock):
+        sock.setsockopt(socket.SOL_SOCKET, socket.SO_LINGER, struct.pack("ii", 1, 0))
+        sock.close()
+
+    def dead_port(kind):
+        tmp = socket.socket(socket.AF_INET, kind)
+        tmp.bind(("127.0.0.1", 0))
+        ha = tmp.getsockname()
+        tmp.close()
+        return ha
+
+    cleanup = []
+    try:
+        if name.startswith(("client-", "incomer-")):
+            ls = socket.socket()
+            cleanup.append(ls)
+            ls.bind(("127.0.0.1", 0))
+            ls.listen(1)
+            far = socket.socket()
+            cleanup.append(far)
+            far.connect(ls.getsockname())
+            near, ca = ls.accept()
+            cleanup.append(near)
+            near.setblocking(False)
+            rec = Rec(near)
+            if name.startswith("client-"):
+                t = clienting.Client(ha=far.getsockname(), bufsize=1024, store=store)
+                t.cs = rec
+                t.accepted = True
+                site = "client"
+            else:
+                t = serving.Incomer(ha=near.getsockname(), bs=1024, ca=ca, cs=rec, store=store)
+                site = "incomer"
+            rst(far)                       # close with linger 0: the peer sends RST
+            time.sleep(0.02)
+            op = name.split("-", 1)[1]
+            if op == "epipe-send":         # the reset is consumed by a receive; the next send hits a dead socket
+                t.receive()
+                t.cutoff = False
+                rec.exc = None
+            site += "Recv" if op == "reset-recv" else "Send"
+            raised, ret = False, None
+            try:
+                ret = t.receive() if op == "reset-recv" else t.send(b"abc")
+            except OSError:
+                raised = True
+            obs = "ret=%s cut=%d open=%d" % ("raised" if raised else show(ret), int(bool(t.cutoff)), int(t.cs is not None))
+        elif name.startswith("gram-"):
+            h = udping.SocketUdpNb(ha=("127.0.0.1", 0))
+            h.reopen()
+            cleanup.append(h)
+            dead = dead_port(socket.SOCK_DGRAM)
+            h.ss.connect(dead)             # a connected UDP socket is told about ICMP port-unreachable
+            h.ss.send(b"ping")
+            time.sleep(0.02)
+            rec = Rec(h.ss)
+            h.ss = rec
+            h2 = h
+            h2.reopen_real, h2.reopen = h2.reopen, (lambda: True)
+            stack = stacking.GramStack(handler=h2)
+            raised, ret = False, None
+            try:
+                if name == "gram-refused-recv":
+                    site = "gramRecv"
+                    ret = show(stack._serviceOneReceived())
+                else:
+                    site = "gramSend"
+                    pkt = types.SimpleNamespace(packed=b"abc")
+                    stack.txPkts.append((pkt, dead))
+                    stack.serviceTxPkts()
+                    ret = "kept" if list(stack.txPkts) == [(pkt, dead)] else "gone"
+            except OSError:
+                raised = True
+            obs = "ret=%s cut=0 open=%d" % ("raised" if raised else ret, int(h.ss is not None))
+        else:                              # connect-refused
+            dead = dead_port(socket.SOCK_STREAM)
+            c = clienting.Client(ha=dead, bufsize=1024, store=store)
+            c.reopen()
+            rec = Rec(c.cs)
+            c.cs = rec
+            first = rec
+            ok = None
+            for _ in range(50):
+                ok = c.accept()
+                if c.cs is not first or ok:
+                    break
+                time.sleep(0.002)
+            reopened = c.cs is not first
+            c.close()
+            try:
+                first._real.close()
+            except OSError:
+                pass
+            code = rec.codes[-1] if rec.codes else None
+            if code is None:
+                return None, "real-skip"
+            return {"connect": code}, ("accepted" if ok else "reopenRetry" if reopened else "retry")
+        if rec.exc is None:
+            return None, "real-skip"
+        return {"site": site, "cls": "osError", "arg0": rec.exc.args[0], "cut": 0}, obs
+    finally:
+        for x in cleanup:
+            try:
+                x.close()
+            except Exception:
+                pass
+
+
 class CHECK(core.Check):
     PROPERTY = "C25"
     LEAN_MODULES = ["IofloModel.Props.C25"]
@@ -111,11 +267,15 @@ class CHECK(core.Check):
             "non-OSError; plus Client.accept over connect_ex result codes and the errno/SSL constants. Exhaustive: all "
             "sites x classes x cutoff x args[0] in a list of ~45 errnos (quick) / every value 0..135 (thorough); random: "
             "args[0] up to 2^31. Non-trivial = the exception is one CPython can build (class/code consistent) and the "
-            "site is not the bare SocketUdpNb.send; distinct by the whole case.")
+            "site is not the bare SocketUdpNb.send; distinct by the whole case. Plus 8 scenarios on REAL loopback sockets "
+            "(TCP reset seen by receive and by send on Client and Incomer, EPIPE after a reset, ICMP port-unreachable on a "
+            "connected UDP socket under GramStack receive and send, connect_ex to a dead port): the exception the kernel "
+            "produced is recorded and classified by the model, the observed outcome compared.")
     TRUSTED = ["correspondence: the real methods run in-process over doubles whose socket call raises the scripted exception; "
                "ssl context stub whose wrap_socket returns the double; GramStack over a SocketUdpNb whose .ss is a double",
                "errno values are Linux's; the model's constants are compared with Python's errno/ssl modules on every run",
-               "exceptions are built with args = (code, text) as CPython's socket and ssl modules do (args[0] == errno)"]
+               "exceptions are built with args = (code, text) as CPython's socket and ssl modules do (args[0] == errno); the "
+               "real-loopback scenarios check this convention and the errno values against a live kernel"]
     PARTIAL = ["C25_loss_cuts_off_partial: loss clause proved for receive/send; the TLS handshake closes the socket and "
                "re-raises on connection loss / TLS EOF (finding D26c, C25_counterexample_handshake)",
                "C25_other_raises_partial: 'other errors propagate' holds outside OSError(errno 2 or 3) on TLS transports, "
@@ -140,6 +300,9 @@ class CHECK(core.Check):
 
     # ------------------------------------------------------------------ cases
     def exhaustive(self, tier):
+        for name in REAL_SCENARIOS:
+            for rep in range(3 if tier == "thorough" else 1):
+                yield {"real": name, "rep": rep}
         for name in CONSTS:
             yield {"const": name}
         codes = range(0, 136) if tier == "thorough" else INTERESTING
@@ -173,7 +336,19 @@ class CHECK(core.Check):
                 a = rng.randrange(0, 2 ** 31)
             yield {"site": site, "cls": cls, "arg0": a, "cut": rng.randrange(2)}
 
+    _equiv = {}
+
+    def equiv(self, case):
+        """the scripted case a real-loopback scenario turned out to be (None: it produced no error this time)"""
+        key = core.case_key(case)
+        if key not in self._equiv:
+            self.impl(case)
+        return self._equiv[key]
+
     def requests(self, case):
+        if "real" in case:
+            eq = self.equiv(case)
+            return self.requests(eq) if eq is not None else ["errno EAGAIN"]
         if "const" in case:
             return ["errno " + case["const"]]
         if "connect" in case:
@@ -181,6 +356,13 @@ class CHECK(core.Check):
         return ["classify %s %s %d %d 1" % (case["site"], case["cls"], case["arg0"], case["cut"])]
 
     def model_post(self, case, replies):
+        if "real" in case:
+            eq = self.equiv(case)
+            if eq is None:
+                return ["real-skip"]
+            out = self.model_post(eq, replies)
+            self._regions[core.case_key(case)] = self._regions.get(core.case_key(eq), {})
+            return out
         if "site" not in case:
             return replies
         out = []
@@ -226,6 +408,13 @@ class CHECK(core.Check):
         return stack, handler
 
     def impl(self, case):
+        if "real" in case:
+            try:
+                eq, obs = real_scenario(case["real"])
+            except OSError:                      # no loopback networking here: extra evidence only, never a verdict
+                eq, obs = None, "real-skip"
+            self._equiv[core.case_key(case)] = eq
+            return [obs]
         if "const" in case:
             name = case["const"]
             return [str(getattr(ssl, name) if name.startswith("SSL_") else getattr(errno, name))]
@@ -317,6 +506,9 @@ class CHECK(core.Check):
     def oracle(self, case, out):
         if not out or out[0].startswith(("ERR", "HARNESS-EXC")):
             return "adapter: %s" % out[:1]
+        if "real" in case:
+            eq = self.equiv(case)
+            return None if eq is None else self.oracle(eq, out)
         if "const" in case:
             return None
         if "connect" in case:
@@ -370,6 +562,8 @@ class CHECK(core.Check):
     _regions = {}
 
     def region(self, finding, case):
+        if "real" in case:
+            case = self.equiv(case) or {}
         if "site" not in case:
             return False
         known = self._regions.get(core.case_key(case))
@@ -379,11 +573,17 @@ class CHECK(core.Check):
         return core.Driver(self.ENGINE).run([req]) == ["1"]
 
     def nontrivial(self, case, out):
+        if "real" in case:
+            return self.equiv(case) is not None
         if "site" not in case:
             return False
         return well_formed(case["site"], case["cls"], case["arg0"]) and case["site"] != "udpSend"
 
     def bucket(self, case, out):
+        if "real" in case:
+            eq = self.equiv(case)
+            return "real/%s/%s" % (case["real"], "no-error" if eq is None else
+                                   eq.get("arg0", eq.get("connect")))
         if "site" not in case:
             return "const" if "const" in case else "connect"
         site, cls, n = case["site"], case["cls"], case["arg0"]
